@@ -101,19 +101,24 @@ def gen_lines(r, pkgs, risky, lo=0, hi=6):
 
 
 def layouts(r, lines, exhaustive_upto=4, samples=10):
-    """Permutations of the lines x placements of file boundaries: list of {path: [line indexes]}."""
+    """Permutations of the lines x placements of file boundaries: list of {path: [line indexes]}.
+    n <= 4: all permutations x all boundary placements; n = 5 (thorough): all permutations x 3 sampled
+    placements each; above: sampled permutations with one sampled placement each."""
     n = len(lines)
     out = []
     if n == 0:
         return [{}, {"requirements.txt": []}]
+    allcuts = [c for k in range(0, min(n, 4)) for c in itertools.combinations(range(1, n), k)]
     if n <= exhaustive_upto:
         perms = list(itertools.permutations(range(n)))
-        cutsets = [c for k in range(0, min(n, 4)) for c in itertools.combinations(range(1, n), k)]
     else:
         perms = [tuple(r.sample(range(n), n)) for _ in range(samples)]
-        cutsets = None
     for pm in perms:
-        for cuts in (cutsets if cutsets is not None else [tuple(sorted(r.sample(range(1, n), r.randint(0, min(3, n - 1)))))]):
+        if n <= min(exhaustive_upto, 4):
+            cutsets = allcuts
+        else:
+            cutsets = r.sample(allcuts, min(len(allcuts), 3 if n <= exhaustive_upto else 1))
+        for cuts in cutsets:
             bounds = [0] + list(cuts) + [n]
             chunks = [list(pm[a:b]) for a, b in zip(bounds, bounds[1:])]
             paths = sorted(r.sample(range(len(PATHS)), len(chunks)))
@@ -401,7 +406,7 @@ def main(ctx):
     with ThreadPoolExecutor(max_workers=4) as ex:
         f_mc = [ex.submit(run_mc, it) for it in mcs]
         # (T) histories on the real code, meanwhile
-        jobs = [{"seed": ctx.seed * 1000 + k, "count": scaled(ctx.pick(40, 1200)), "scratch": ctx.scratch, "quick": ctx.quick} for k in range(16)]
+        jobs = [{"seed": ctx.seed * 1000 + k, "count": scaled(ctx.pick(30, 300)), "scratch": ctx.scratch, "quick": ctx.quick} for k in range(16)]
         jobs[0]["hists"] = None
         results = run_workers("harness.drivers.c20", "run_histories", jobs + [{"seed": 0, "hists": witnesses(), "scratch": ctx.scratch, "quick": True}],
                               ctx.scratch, nproc=min(17, NPROC))
